@@ -26,6 +26,7 @@ import (
 	"io"
 	"os"
 	"path/filepath"
+	"reflect"
 	"sort"
 	"strings"
 )
@@ -481,33 +482,164 @@ func (in *inst) stepStmt(pos token.Pos, class string) ast.Stmt {
 // simulator's bookkeeping - nondeterministic, and a source of false alarms.
 func (in *inst) refuseConcurrency(f *ast.File) {
 	ast.Inspect(f, func(n ast.Node) bool {
-		what := ""
-		switch x := n.(type) {
-		case *ast.SelectStmt:
-			what = "select statement"
-		case *ast.SendStmt:
-			what = "channel send"
-		case *ast.UnaryExpr:
-			if x.Op == token.ARROW {
-				what = "channel receive"
-			}
-		case *ast.RangeStmt:
-			if tv, ok := in.info.Types[x.X]; ok {
-				if _, isChan := tv.Type.Underlying().(*types.Chan); isChan {
-					what = "range over a channel"
-				}
-			}
-		}
-		if what != "" {
+		if _, ok := n.(*ast.SelectStmt); ok {
 			p := in.fset.Position(n.Pos())
-			fatal("%s:%d: %s in library code: the simulator's cooperative scheduler does not model goroutines or channels created by the library (cannot instrument; this is not a verdict)", p.Filename, p.Line, what)
+			fatal("%s:%d: select statement in library code: the simulator models goroutines, WaitGroup/Mutex/Once and plain channel operations, not select (cannot instrument; this is not a verdict)", p.Filename, p.Line)
 		}
 		return true
 	})
 }
 
+// isChan reports whether an expression of the original tree has channel type.
+func (in *inst) isChan(e ast.Expr) bool {
+	if tv, ok := in.info.Types[e]; ok && tv.Type != nil {
+		_, is := tv.Type.Underlying().(*types.Chan)
+		return is
+	}
+	return false
+}
+
+func (in *inst) rt(fn string, args ...ast.Expr) *ast.CallExpr {
+	in.usedRT = true
+	return &ast.CallExpr{Fun: &ast.SelectorExpr{X: ast.NewIdent(rtAlias), Sel: ast.NewIdent(fn)}, Args: args}
+}
+
+// rewriteChannels is rule R6: channel operations of library code go through the simulator
+// (simrt.Send / Recv / Recv2 / Close / Len), which keeps each channel's queue in a side table and
+// turns blocking into handing over the baton.  `for v := range ch` becomes a loop around Recv2.
+func (in *inst) rewriteChannels(f *ast.File) {
+	// comma-ok receives first (they are statements), then every remaining receive expression
+	ast.Inspect(f, func(n ast.Node) bool {
+		switch x := n.(type) {
+		case *ast.AssignStmt:
+			if len(x.Lhs) == 2 && len(x.Rhs) == 1 {
+				if u, ok := x.Rhs[0].(*ast.UnaryExpr); ok && u.Op == token.ARROW {
+					x.Rhs[0] = in.rt("Recv2", u.X)
+				}
+			}
+		case *ast.ValueSpec:
+			if len(x.Names) == 2 && len(x.Values) == 1 {
+				if u, ok := x.Values[0].(*ast.UnaryExpr); ok && u.Op == token.ARROW {
+					x.Values[0] = in.rt("Recv2", u.X)
+				}
+			}
+		}
+		return true
+	})
+	replaceExprs(f, func(e ast.Expr) ast.Expr {
+		switch x := e.(type) {
+		case *ast.UnaryExpr:
+			if x.Op == token.ARROW {
+				return in.rt("Recv", x.X)
+			}
+		case *ast.CallExpr:
+			if id, ok := x.Fun.(*ast.Ident); ok && len(x.Args) == 1 {
+				if _, builtin := in.info.Uses[id].(*types.Builtin); builtin && in.isChan(x.Args[0]) {
+					switch id.Name {
+					case "close":
+						return in.rt("Close", x.Args[0])
+					case "len":
+						return in.rt("Len", x.Args[0])
+					}
+				}
+			}
+		}
+		return e
+	})
+	replaceStmts(f, func(s ast.Stmt) ast.Stmt {
+		switch x := s.(type) {
+		case *ast.SendStmt:
+			return &ast.ExprStmt{X: in.rt("Send", x.Chan, x.Value)}
+		case *ast.RangeStmt:
+			if !in.isChan(x.X) {
+				return s
+			}
+			in.tmp++
+			id := ast.NewIdent
+			cName, vName, okName := fmt.Sprintf("zzc%d", in.tmp), fmt.Sprintf("zzcv%d", in.tmp), fmt.Sprintf("zzcok%d", in.tmp)
+			recv := &ast.AssignStmt{Lhs: []ast.Expr{id(vName), id(okName)}, Tok: token.DEFINE, Rhs: []ast.Expr{in.rt("Recv2", id(cName))}}
+			stop := &ast.IfStmt{Cond: &ast.UnaryExpr{Op: token.NOT, X: id(okName)}, Body: &ast.BlockStmt{List: []ast.Stmt{&ast.BranchStmt{Tok: token.BREAK}}}}
+			head := []ast.Stmt{recv, stop}
+			switch {
+			case x.Key == nil || isBlank(x.Key):
+				head = append(head, &ast.AssignStmt{Lhs: []ast.Expr{id("_")}, Tok: token.ASSIGN, Rhs: []ast.Expr{id(vName)}})
+			case x.Tok == token.DEFINE:
+				head = append(head, &ast.AssignStmt{Lhs: []ast.Expr{x.Key}, Tok: token.DEFINE, Rhs: []ast.Expr{id(vName)}})
+			default:
+				head = append(head, &ast.AssignStmt{Lhs: []ast.Expr{x.Key}, Tok: token.ASSIGN, Rhs: []ast.Expr{id(vName)}})
+			}
+			loop := &ast.ForStmt{Body: &ast.BlockStmt{List: append(head, x.Body.List...)}}
+			return &ast.BlockStmt{List: []ast.Stmt{&ast.AssignStmt{Lhs: []ast.Expr{id(cName)}, Tok: token.DEFINE, Rhs: []ast.Expr{x.X}}, loop}}
+		}
+		return s
+	})
+}
+
+var (
+	exprType = reflect.TypeOf((*ast.Expr)(nil)).Elem()
+	stmtType = reflect.TypeOf((*ast.Stmt)(nil)).Elem()
+)
+
+// replaceExprs / replaceStmts rewrite every ast.Expr (ast.Stmt) slot of the tree bottom-up.
+func replaceExprs(root ast.Node, f func(ast.Expr) ast.Expr) {
+	walkSlots(reflect.ValueOf(root), exprType, func(v reflect.Value) {
+		if e, ok := v.Interface().(ast.Expr); ok && e != nil {
+			v.Set(reflect.ValueOf(f(e)))
+		}
+	})
+}
+
+func replaceStmts(root ast.Node, f func(ast.Stmt) ast.Stmt) {
+	walkSlots(reflect.ValueOf(root), stmtType, func(v reflect.Value) {
+		if s, ok := v.Interface().(ast.Stmt); ok && s != nil {
+			if ls, isL := s.(*ast.LabeledStmt); isL {
+				_ = ls // the labelled statement's own slot (ls.Stmt) is visited as a field
+			}
+			v.Set(reflect.ValueOf(f(s)))
+		}
+	})
+}
+
+func walkSlots(v reflect.Value, slot reflect.Type, visit func(reflect.Value)) {
+	switch v.Kind() {
+	case reflect.Pointer:
+		if !v.IsNil() {
+			walkSlots(v.Elem(), slot, visit)
+		}
+	case reflect.Interface:
+		if !v.IsNil() {
+			walkSlots(v.Elem(), slot, visit)
+		}
+	case reflect.Slice:
+		for i := 0; i < v.Len(); i++ {
+			el := v.Index(i)
+			walkSlots(el, slot, visit)
+			if el.Type() == slot && el.CanSet() {
+				visit(el)
+			}
+		}
+	case reflect.Struct:
+		t := v.Type()
+		if t.PkgPath() != "go/ast" {
+			return
+		}
+		for i := 0; i < v.NumField(); i++ {
+			fv := v.Field(i)
+			ft := t.Field(i)
+			if !ft.IsExported() || ft.Name == "Obj" || ft.Name == "Scope" || ft.Name == "Unresolved" || ft.Name == "Comments" || ft.Name == "Doc" || ft.Name == "Comment" {
+				continue
+			}
+			walkSlots(fv, slot, visit)
+			if fv.Type() == slot && fv.CanSet() {
+				visit(fv)
+			}
+		}
+	}
+}
+
 func (in *inst) rewriteFile(f *ast.File) {
 	in.refuseConcurrency(f)
+	in.rewriteChannels(f)
 	// R1: sync types
 	syncUsed := false
 	ast.Inspect(f, func(n ast.Node) bool {
